@@ -346,8 +346,12 @@ func streamEngine(seed uint64, n int, driver, corpus, dump, variant string) (*Su
 		for _, prop := range engineProps {
 			ip, mp := iv.project(prop), mv.project(prop)
 			if ip != mp {
-				sum.addMismatch(prop, Mismatch{Case: lines[i], Impl: implLine, Model: modelLine, What: "projection " + prop + ": impl=" + ip + " model=" + mp,
-					Stream: "engine", Variant: variant, Seed: seed, Index: i})
+				m := Mismatch{Case: lines[i], Impl: implLine, Model: modelLine, What: "projection " + prop + ": impl=" + ip + " model=" + mp,
+					Stream: "engine", Variant: variant, Seed: seed, Index: i}
+				if prop == shrinkProp && len(sum.Mismatches[prop]) < 2 {
+					shrinkEngineCase(c, prop, driver, &m)
+				}
+				sum.addMismatch(prop, m)
 			}
 		}
 	}
@@ -357,4 +361,66 @@ func streamEngine(seed uint64, n int, driver, corpus, dump, variant string) (*Su
 	}
 	sort.Strings(keys)
 	return sum, nil
+}
+
+// shrinkProp: the property whose first mismatches are shrunk (the one the check was started for)
+var shrinkProp string
+
+// shrinkEngineCase: greedy shrinking of a failing engine case. Every round generates all one-step reductions
+// of the current case, executes them on the implementation and on the model, and moves to the first one whose
+// projection for the property still differs. The result is recorded next to the original case.
+func shrinkEngineCase(c *eng.Case, prop, driver string, m *Mismatch) {
+	cur := c
+	steps := 0
+	var bestLine, bestImpl, bestModel, bestWhat string
+	for round := 0; round < 80; round++ {
+		cands := eng.Reductions(cur)
+		if len(cands) == 0 {
+			break
+		}
+		var lines []string
+		var impls []string
+		var ok []*eng.Case
+		for _, cc := range cands {
+			func() {
+				defer func() { recover() }() // a candidate the harness cannot build is skipped
+				res := eng.Run(cc)
+				lines = append(lines, cc.Line(res.Order))
+				impls = append(impls, res.Sx(cc.ID).String())
+				ok = append(ok, cc)
+			}()
+		}
+		if len(lines) == 0 {
+			break
+		}
+		models, err := runDriver(driver, lines)
+		if err != nil || len(models) != len(lines) {
+			break
+		}
+		found := -1
+		for k := range lines {
+			parts := strings.SplitN(models[k], "\t", 2)
+			modelLine := parts[len(parts)-1]
+			iv, err1 := parseRes(impls[k])
+			mv, err2 := parseRes(modelLine)
+			if err1 != nil || err2 != nil {
+				continue
+			}
+			ip, mp := iv.project(prop), mv.project(prop)
+			if ip != mp {
+				found = k
+				bestLine, bestImpl, bestModel = lines[k], impls[k], modelLine
+				bestWhat = "projection " + prop + ": impl=" + ip + " model=" + mp
+				break
+			}
+		}
+		if found < 0 {
+			break
+		}
+		cur = ok[found]
+		steps++
+	}
+	if steps > 0 {
+		m.Shrunk, m.ShrunkImpl, m.ShrunkModel, m.ShrunkWhat, m.ShrunkSteps = bestLine, bestImpl, bestModel, bestWhat, steps
+	}
 }
